@@ -63,7 +63,7 @@ def leaf_scan(E, params):
         panic = e
     viol = []; nobl = 0
     I = FakeInst(cells, params)
-    Lf = Leaf(E, I, 'C12')
+    Lf = Leaf(E, I, params.get('prop', 'C12'))
     if panic is not None:
         Lf.concrete(False, f'scanner does not return normally: {panic}')
         pos = None
@@ -72,9 +72,9 @@ def leaf_scan(E, params):
         Lf.concrete(c is cells and 0 <= pos <= L, f'cursor left the buffer: {cur}')
         st = box[0][0]; en = box[0][1]
         Lf.concrete(nav(en)[1] == L, 'end pointer changed')
-        for j in range(min(pos, L)):
+        for j in (range(min(pos, L)) if not params.get('safety_only') else []):
             Lf.byte_in(cells[j], cls, f'{fn}: stopped at {pos} but byte {j} before it is outside the class')
-        if pos < L:
+        if pos < L and not params.get('safety_only'):
             Lf.byte_in(cells[pos], sym.MASK256 & ~cls, f'{fn}: stopped at {pos} of {L} although that byte is in the class')
         if cpu is not None:
             for b in cpu['bad']: Lf.concrete(False, b)
